@@ -188,6 +188,17 @@ CLAIMS = {
              "basis, is execution), full column rank.",
         technique=TECH + "table/position agreement with the validators' extracted pins, key-pairing of dictionary stores, "
                          "definition normal forms and d-exponent arithmetic"),
+    "C18": dict(
+        text="Narrow structural clauses: (T1) is_tp / is_cp use the caller's tolerance absolutely; (S4) the equality projection zeroes "
+             "exactly row 0 on a private deep copy; (S1) the inequality projection reconstructs V diag(w) V-dagger from eigh and clips only "
+             "negative eigenvalues; (Q1) homogeneity degree: the dissipator built from jump operators must be quadratic in them and the H / "
+             "J parts linear; (Q2) the constant first row is the same in verdict, projection and variable conversion, and the conversion "
+             "binds the base class's generate_from_var call; (Q3) a class overriding an object-level projection overrides the "
+             "variable-level twin.",
+        note="Not decided: GKSL action, decomposition / recomposition identities, exponentiation (numerical). Known findings F12 "
+             "(jump-operator anticommutator part is linear in L) and F7 (variable-level projections inherited from Gate).",
+        technique=TECH + "tolerance flow, spectral-discipline normal form, homogeneity-degree (units-style) abstract domain, slot and "
+                         "constraint-constant agreement, override-pair completeness"),
 }
 
 NOT_APPLICABLE = {
